@@ -84,12 +84,16 @@ TERMS = {
     'swap': lambda a: (a[1], a[0]),
     'negf': lambda a: -a,
     'clear_dict': lambda a: {k: -v for k, v in a.items()},
+    # a terminator whose RESULT is legitimately None for some keys ('not enough data for this key'): None is what is emitted then
+    # (only on an object-typed state: the multiplexed scan stores the terminator's result in the key's state, and a state typed by an
+    # int seed cannot hold None - a value a typed state cannot hold is outside every statement)
+    'none_if_short': lambda a: None if len(a) < 3 else len(a),
 }
 # (acc, seed, terminators allowed)
 COMBOS = [
     ('add', 'zero', [None, 'neg', 'plus7']), ('add', 'five', [None, 'neg']), ('addf', 'zerof', [None, 'negf']),
     ('pair', 'pair00', [None, 'swap']),
-    ('append_new', 'list_value', [None, 'mark_new', 'sorted']), ('append_new', 'list_value_nonempty', [None, 'mark_new']),
+    ('append_new', 'list_value', [None, 'mark_new', 'sorted', 'none_if_short']), ('append_new', 'list_value_nonempty', [None, 'mark_new']),
     ('append_mut', 'list_value', [None, 'mark_mut', 'mark_new']), ('append_mut', 'list_value_nonempty', [None, 'mark_mut']),
     ('append_mut', 'list_factory', [None, 'mark_mut', 'sorted']),
     ('dict_mut', 'dict_factory', [None, 'clear_dict']), ('dict_mut', 'dict_value', [None]),
@@ -224,7 +228,7 @@ class C09(Check):
     ASSUMPTIONS = ['accumulators return values of the seed\'s type; mean(reduce) of an empty key is outside the domain',
                    'dist.update is compared through distogram.count / bounds / mean / bins against a reference fold with the same library']
     ANCHORS = ['rxsci/operators/scan.py', 'rxsci/operators/count.py', 'rxsci/data/to_list.py', 'rxsci/data/to_array.py', 'rxsci/math/dist/__init__.py']
-    REQUIRED_TAGS = ['plain', 'mux', 'group', 'roll', 'roll_eq', 'split', 'time_split', 'generic', 'named', 'reduce', 'streaming', 'terminator',
+    REQUIRED_TAGS = ['terminator-whose-result-is-None-for-some-keys', 'plain', 'mux', 'group', 'roll', 'roll_eq', 'split', 'time_split', 'generic', 'named', 'reduce', 'streaming', 'terminator',
                      'factory', 'value-seed', 'mutable', 'empty-lifetime', 'scale', 'numpy-items', 'numpy-vector-items', 'reduce-flag-given-as-a-non-bool', 'factory-that-is-not-a-function', 'exact-number-items'] + ['history-fed-more-than-the-judged-stream'] + PRELUDE_TAGS + ['op=' + n[0] for n in NAMED]
     REQUIRED_OBSERVED = ['triples_of_staggered_subscriptions', 'accumulator_calls', 'terminator_calls', 'factory_calls', 'lifetimes_checked', 'identity_checks']
 
@@ -351,6 +355,8 @@ class C09(Check):
         out.tags += ['reduce' if reduce else 'streaming', 'factory' if SEEDS[case['seed']][1] else 'value-seed']
         if termf:
             out.tags.append('terminator')
+            if case['term'] == 'none_if_short':
+                out.tags.append('terminator-whose-result-is-None-for-some-keys')
         if mutable:
             out.tags.append('mutable')
         log, probe, s = self._run_generic(case, reduce, out)
